@@ -75,10 +75,13 @@ ProgBad(r) ==
                 : i \in DOMAIN r.ctx }
         ELSE {})
 
-\* an intersection one of whose members is a reference to a named object type (anywhere in the program)
+\* an intersection one of whose members is printed through $refs to definitions: a reference to a named object type, or a
+\* (discriminated) union of object types (anywhere in the program)
 RECURSIVE NamedInterMember(_, _, _)
 NamedInterMember(T, env, seen) ==
   CASE T.t = "inter" -> (\E i \in DOMAIN T.ms : T.ms[i].t = "ref" /\ \E b \in Branches(T.ms[i], env) : b.t = "obj")
+                        \* a union of object types may be printed as a discriminated union, whose variants become definitions
+                        \/ (\E i \in DOMAIN T.ms : T.ms[i].t = "union" /\ Cardinality({b \in Branches(T.ms[i], env) : b.t = "obj"}) >= 2)
                         \/ (\E i \in DOMAIN T.ms : NamedInterMember(T.ms[i], env, seen))
     [] T.t = "union" -> \E i \in DOMAIN T.ms : NamedInterMember(T.ms[i], env, seen)
     [] T.t = "arr"   -> NamedInterMember(T.e, env, seen)
